@@ -68,6 +68,8 @@ def tempo_maps(draw, max_segments: int = 24, values=bpm_values, res=resolutions,
     for k in range(nseg):
         if pattern is not None:
             pg, pgap, n = pattern[k % len(pattern)]
+        elif k > 0 and draw(st.integers(0, 6)) == 0:
+            n = tempo[-1][1]          # a tempo event that restates the tempo already in force
         else:
             n = draw(values)
         if k > 0:
@@ -293,7 +295,7 @@ def chart_specs(draw, max_segments: int = 8, max_tracks: int = 2, max_notes: int
                 max_events: int = 5, max_ts: int = 3, max_anchors: int = 2, tempo_values=bpm_values,
                 headers=None, min_tracks: int = 0, min_notes: int = 0, limit_s: int = TIME_LIMIT_S,
                 max_tick_cap: int | None = None, anchor_max: int = 10 ** 11, res=None,
-                with_song: bool = True, with_layout: bool = True):
+                with_song: bool = True, with_layout: bool = True, allow_long_tracks: bool = True):
     """A well-formed chart spec plus the generation-side facts a check may want:
     returns {"spec": spec, "res": r, "tempo": [...], "max_tick": M, "tracks_model": {...}}."""
     tmap = draw(tempo_maps(max_segments=max_segments, values=tempo_values,
@@ -326,8 +328,26 @@ def chart_specs(draw, max_segments: int = 8, max_tracks: int = 2, max_notes: int
         if ntr else []
     tracks = {}
     tracks_model = {}
+    amplify = draw(st.integers(0, 9)) == 0 and allow_long_tracks
     for h in chosen:
         tsp = draw(track_specs(tm, max_tick, max_notes=max_notes, min_notes=min_notes))
+        if amplify and tsp["notes"]:
+            # LONG track: the drawn block of notes / phrases / track events repeated with shifted ticks
+            span = max([n["tick"] for n in tsp["notes"]] + [p[0] + p[1] for p in tsp["phrases"]]
+                       + [e[0] for e in tsp["tevents"]]) + 1
+            reps = min(draw(st.sampled_from([20, 70, 140])), max(1, (max_tick + 1) // span - 1))
+            ends_ok = [n for n in tsp["notes"]]
+            notes, phrases, tev = [], [], []
+            for k in range(reps):
+                off = k * span
+                for n in ends_ok:
+                    mx = max(0, max_tick - (n["tick"] + off))
+                    lens = min(n["lens"], mx) if isinstance(n["lens"], int) else [min(x, mx) for x in n["lens"]]
+                    notes.append(dict(n, tick=n["tick"] + off, lens=lens,
+                                      forced=n["forced"] if (k > 0 or n is not ends_ok[0]) else None))
+                phrases += [[p[0] + off, min(p[1], max(0, max_tick - p[0] - off))] for p in tsp["phrases"]]
+                tev += [[e[0] + off, e[1]] for e in tsp["tevents"]]
+            tsp = {"notes": notes, "phrases": phrases, "tevents": tev}
         tracks_model[h] = tsp
         tracks[h] = merge_track_items(tsp["notes"], tsp["phrases"], tsp["tevents"])
     spec = {"res": tmap["res"], "sync": sync, "events": [list(e) for e in evs], "tracks": tracks}
